@@ -1,13 +1,18 @@
 """Shared machinery of the rotation checks C05 C06 C07 C09 (one model, one harness, four oracles).
 
 A *case* = configuration (L, N, options, timestamp granularity, file name, start time) + a list of
-operations (w = write a message, adv = move the virtual wall clock forward, restart = destroy and
-re-create the sink, put = somebody else creates a file).  Each case is executed on the real
+operations (w = write a message of some QtMsgType - the sink is called directly, so a fatal-typed record does
+not abort -, adv = move the virtual wall clock forward, restart = destroy and re-create the sink, put =
+somebody else creates a file).  Each case is executed on the real
 RotatingFileSink (build/h_rotate, virtual clock) and on the extracted Coq model (build/m_rotate);
 after every operation both print the directory; the listings must be identical.  From the
 IMPLEMENTATION's listings the ghost data of the model (which records each file holds, which files
 disappeared, in which order) is reconstructed and the extracted boolean oracles prop_c05_b ...
-prop_c09_b are evaluated on it (build/m_rotate oracle)."""
+prop_c09_b are evaluated on it (build/m_rotate oracle).
+Outside the model (oracle / direct expectation only) a few deterministic probes: a second sink object on the same
+path (w2), sinks on OTHER log files of the same directory and process (wo: sink objects must share nothing), sparse
+active files near INT_MAX and beyond 2 GiB (size and daily rotation), a plain file with a .gz twin of the same date
+and index (model + oracle), a look-alike with a trailing newline, a record still buffered at midnight (F21)."""
 import gzip, json, os, re, shutil, tempfile, time
 from concurrent.futures import ThreadPoolExecutor
 import vlib
@@ -556,7 +561,8 @@ META_NOTE = ('Trusted: Coq 8.16.1 kernel (vm_compute only for the closed sweep o
              'QRegularExpression (the two patterns are a hand-written recogniser), QDate (civil-from-days), toLocal8Bit in a UTF-8 '
              'locale, gzip bytes (C08).  Hypotheses of the theorems: the wall clock never goes backwards and stays before year '
              '10000; nobody else creates files that match the sink\'s own rotated-name scheme; (L, N, options) fixed across restarts; '
-             'no I/O errors; indices below 2^31.')
+             'no I/O errors; indices below 2^31.  The QtMsgType of a record is part of the Write operation and provably irrelevant '
+             '(C07_message_type_irrelevant).')
 
 
 def probe_newline_lookalike(chk, impl, model):
